@@ -467,6 +467,43 @@ def run_case(case):
             for (kind2, text, detail) in c12.x5t_history('all', False, obs12):
                 violations.append(dict(key=None, what='[%s] %s' % (kind2, text), detail=detail))
             obs['certificate_variant_runs'] += obs12['bundles']
+            # a source with two integrity policies (signature over the payload, MAC over a Bundle Age block), in both orders: the
+            # block it produces verifies independently and at a receiver holding the keys
+            import re as _re
+            from vf.world.sim import Sim
+            from vf.gen import bundles as gen
+            from bp.util import BundleContainer
+            from bp.app import bpsec
+            for order in ('sign-first', 'mac-first'):
+                sim = Sim(0, 'eager')
+                src = sh.source_node(sim, 'sign1', include_chain=True, target_types=(1,))
+                ctx = src.bpsec_ctx()
+                ctx.sym_key_store[b'mk'] = sh.sym_key(b'mk', sh.MAC_KEY, 'HMAC256', 'mac')
+                mac_assoc = bpsec.SecAssociation(src_pat=_re.compile('.*'), dst_pat=_re.compile('.*'), tgt_blk_types=[7],
+                                                 templates=[bpsec.SecOperation(sec_type='bib', role='source', priv_key_id=b'mk')])
+                if order == 'sign-first':
+                    ctx.sec_assoc.append(mac_assoc)
+                else:
+                    ctx.sec_assoc.insert(0, mac_assoc)
+                bundle = base_bundle(rng, 30, next_=1, crc=rng.choice([0, 2]), seq=77, force_types=(7,))
+                bundle['primary']['flags'] = 0
+                src.send(BundleContainer(gen.to_real(bundle)))
+                sim.settle(5000)
+                outs = src.cl.datas()
+                obs['two_policy_sources'] = obs.get('two_policy_sources', 0) + 1
+                label = 'source with two integrity policies (%s)' % order
+                if len(outs) != 1:
+                    note([('bad-bib', '%s: %d outputs' % (label, len(outs)))], order.encode(), label)
+                    continue
+                verdict, why = cb.verify_bundle(outs[0], sh.oracle_keys('all'))
+                problems = []
+                if verdict != 'ok':
+                    problems.append(('bad-bib', '%s: the integrity block(s) produced by the agent do not verify independently: %s %s' % (label, verdict, why[:80])))
+                else:
+                    delivered, log, err, loop_errs = receive(outs[0], 'sign1')
+                    if delivered is None or err is not None:
+                        problems.append(('rejected-unmodified', '%s: an unmodified bundle was not delivered at a receiver holding the keys (log %s)' % (label, log[:3])))
+                note(problems, outs[0], label)
         elif kind == 'keys':
             for cose in ('mac0-256', 'sign1'):
                 bundle = base_bundle(rng, 40, next_=1, crc=2, seq=7)
